@@ -15,7 +15,12 @@
      BooleanProfiler             334-343    [profile_bool]
      NumericProfiler             346-375    [profile_ord] with [with_order = true]
      VarcharProfiler             378-393    [profile_text]
-     DateProfiler                396-417    [profile_ord] with [with_order = false]
+     DateProfiler                396-417    [profile_ord] with [with_order = false]; the conversion of its cells
+                                            (numpy.array(..., dtype="datetime64[s]"): an offset-aware datetime is
+                                            taken at its UTC instant, floored to the second) is [xvalue]
+     NumericProfiler / get_kvm_hashes on equal values that print differently (0.0 / -0.0): [profile_x]
+                                            (the sketch de-duplicates by ==, so per VALUE, and hashes the text of
+                                            the first-seen form)
    and of /repo/orso/dataframe.py:
      DataFrame.append            136-143    [FAppend] in [fstep]: the row goes to the end of the frame's rows
      DataFrame.profile           338-342    [FProfile] in [fstep]: from_dataframe of the rows the frame holds NOW
@@ -292,6 +297,41 @@ Definition profile_num {E} (scale : Z) (hash : Z -> N) (np_hist : list Z -> list
            (with_order : bool) (c : list (option Z)) : profile Z E :=
   profile_ord Z.leb Z.eqb (trunc_z scale) hash E np_hist with_order c.
 
+(* ---------- cells as Python holds them: wall-clock readings with a UTC offset, values with a form ----------
+   A cell is (raw, shift, form).  Its VALUE - what the profiler computes with after its own
+   conversion - is floor((raw - shift) / unit):
+     numbers     raw = the fixed-point integer, shift = 0, unit = 1;  form 1 = negative zero (-0.0,
+                 Decimal('-0')), which == 0.0 but prints '-0.0'
+     instants    raw = the wall-clock reading in microseconds since 1970-01-01T00:00:00, shift = the
+                 UTC offset of the datetime in microseconds (0 for a naive datetime, which numpy takes
+                 as UTC), unit = 10^6 (datetime64[s] floors to the second)
+   Python compares and counts the converted values with ==, which ignores the form; str() - what the
+   sketch hashes - does not.  set(data) keeps the first-seen of equal elements. *)
+Definition xcell : Type := (Z * Z * N)%type.
+Definition xvalue (unit : Z) (c : xcell) : Z := let '(raw, shift, _) := c in (raw - shift) / unit.
+Definition xform (c : xcell) : N := snd c.
+Definition xkey (unit : Z) (c : xcell) : Z * N := (xvalue unit c, xform c).
+Definition xeqb (unit : Z) (a b : xcell) : bool := xvalue unit a =? xvalue unit b.
+Definition xvalues (unit : Z) (c : list (option xcell)) : list (option Z) := map (option_map (xvalue unit)) c.
+
+(* NumericProfiler / DateProfiler on such cells: every statistic is computed from the values.
+   Counter(data) and set(data) keep the FIRST-SEEN of equal elements, and what is listed / hashed
+   is the text of that element: a listed frequent value and a sketch entry are per value, but
+   carry the form of its first occurrence ('-0' when -0.0 came before 0.0). *)
+Definition xkeys (unit : Z) (c : list (option xcell)) : list (option (Z * N)) := map (option_map (xkey unit)) c.
+Definition keqb (a b : Z * N) : bool := fst a =? fst b.       (* == on the converted values: the form does not count *)
+
+(* the cells are converted once ([xkeys]: value and form of every cell), as the profiler does *)
+Definition profile_x {E} (scale unit : Z) (hashF : Z * N -> N) (np_hist : list Z -> list (E * Z))
+           (with_order : bool) (c : list (option xcell)) : profile (Z * N) E :=
+  let kc := xkeys unit c in
+  let p := profile_num scale (fun _ => 0%N) np_hist with_order (map (option_map fst) kc) in
+  let keys := nonnull kc in
+  mkp (p_count p) (p_missing p) (p_maximum p) (p_minimum p) (p_order p) (p_transitions p)
+      (most_common keqb MOST_FREQUENT_VALUE_SIZE keys)
+      (p_histogram p)
+      (kmv_of keqb hashF KVM_SIZE keys).
+
 (* ---------- text ---------- *)
 (* Python str comparison: lexicographic on code points; the same function orders byte strings *)
 Fixpoint lex_leb (a b : list N) : bool :=
@@ -503,6 +543,36 @@ Definition c15_show_ord (k : ord_case) :=
    match o_cut o with Some (n, _) => Some (addf (prof (firstn n c)) (prof (skipn n c))) | None => None end,
    if big then [] else cut_quads prof addf c,
    session_show (profile_frame Z.eqb N dummy_merge prof) c o).
+
+(* numbers and instants given as cells (raw, shift, form); the hash table is keyed by (value, form) *)
+Definition ordx_case : Type :=
+  bool * Z * Z * list (option xcell) * nat * list (Z * N * N) * list (N * Z) * obs (Z * N).
+
+Definition zn_eqb (a b : Z * N) : bool := (fst a =? fst b) && (snd a =? snd b)%N.
+
+Definition ordx_parts (k : ordx_case) :=
+  let '(with_order, scale, unit, c0, rep, hashes, hist, o) := k in
+  let big := negb (Nat.eqb rep 1) in
+  let c := expand rep c0 in
+  let hashF := fun v => assoc zn_eqb v hashes 0%N in
+  let whole := nonnull (xvalues unit c) in
+  let np_hist := fun d => if negb big && list_eqb Z.eqb d whole then hist
+                          else match d with [] => [] | _ => [(0%N, zlen d)] end in
+  let prof := profile_x scale unit hashF np_hist with_order in
+  let addf := add zn_eqb N dummy_merge in      (* __add__ matches listed values by their text: value and form *)
+  (big, c, prof, addf, np_hist, whole, o).
+
+Definition c15_check_ordx (k : ordx_case) : bool :=
+  let '(big, c, prof, addf, np_hist, whole, o) := ordx_parts k in
+  (if big then true else hist_ok whole (np_hist whole)) &&
+  check_common zn_eqb big prof addf (profile_frame zn_eqb N dummy_merge prof) c o.
+
+Definition c15_show_ordx (k : ordx_case) :=
+  let '(big, c, prof, addf, np_hist, whole, o) := ordx_parts k in
+  (profile_frame zn_eqb N dummy_merge prof c,
+   match o_cut o with Some (n, _) => Some (addf (prof (firstn n c)) (prof (skipn n c))) | None => None end,
+   if big then [] else cut_quads prof addf c,
+   session_show (profile_frame zn_eqb N dummy_merge prof) c o).
 
 (* text *)
 Definition text_case : Type :=
